@@ -35,8 +35,14 @@ FIXED = [
  ("C05", "c05:decode-differs:LZWDecode+pred*", "LZWDecode applies /Predictor like FlateDecode", "LZW data with a predictor came back still predicted"),
  ("C05", "c05:decode-differs:*+pred2", "implement the TIFF predictor", "Predictor 2 ignored: differences returned instead of samples"),
  ("C14", "c14:predictor-geometry", "reject predictor parameters that are not positive or overflow", "negative/huge Colors, BitsPerComponent, Columns: overflow panics and row buffers of Columns bytes"),
+ ("C08", "c08:roundtrip:differs:Leading (TD)", "TD shorthand is chosen when the leading equals minus the vertical offset", "Leading(-0) MoveTextPosition(0,1) written as '0 1 TD' and read back with leading -1"),
+ ("C08", "c08:table[sh]:differs:Shade", "parse the sh operator into Op::Shade", "'/N sh' parsed to no operation"),
+ ("C08", "c08:roundtrip:differs:RenderingIntent", "write the operand of ri as a name", "RenderingIntent written as 'Perceptual ri' without the solidus"),
+ ("C08", "c08:table[Tr]:differs:TextRenderMode", "text rendering modes 6 and 7 are valid", "'6 Tr' and '7 Tr' rejected and dropped"),
+ ("C08", "c08:table[BI]:differs:InlineImage", "seek_substr finds occurrences that start inside a partial match", "inline image whose data ends in LF ('ID \\n\\nEI') reported as unterminated"),
 ]
 OPEN = [
+ ("C06", "gate:encrypt-direct-in-trailer", "a document whose trailer holds the /Encrypt dictionary directly (legal, ISO 32000-1 Table 15) cannot be opened with any password: Trailer.encrypt_dict is Option<RcRef<CryptDict>> and rejects a direct dictionary (UnexpectedPrimitive expected Reference); repairing it changes a public field type and needs writers for CryptDict, so it is recorded, not fixed"),
 ]
 
 def commit_for(grep):
